@@ -6,6 +6,8 @@ import (
 	"encoding/json"
 	"fmt"
 	"os"
+	"runtime"
+	"runtime/pprof"
 	"time"
 
 	rt "github.com/innovationb1ue/RedisGO/verifrt"
@@ -34,6 +36,20 @@ func main() {
 		n := 5
 		fmt.Sscan(os.Args[2], &n)
 		os.Exit(racePass(n))
+	case "mem":
+		// debugging aid: memory growth of one deep task
+		b, _ := json.Marshal(c07Task{Workload: 0, Merge: 0, Bound: 2, MaxRuns: 300, Lo: 3, Hi: 6})
+		c07Worker(b, func() {})
+		var ms runtime.MemStats
+		runtime.ReadMemStats(&ms)
+		fmt.Printf("heap=%dMB sys=%dMB goroutines=%d\n", ms.HeapAlloc>>20, ms.Sys>>20, runtime.NumGoroutine())
+		f, _ := os.Create(os.Getenv("VERIF_SCRATCH") + "/heap.prof")
+		pprof.WriteHeapProfile(f)
+		f.Close()
+		g, _ := os.Create(os.Getenv("VERIF_SCRATCH") + "/goroutines.txt")
+		pprof.Lookup("goroutine").WriteTo(g, 1)
+		g.Close()
+		os.Exit(0)
 	case "one8":
 		h.Boot(2, 1)
 		rt.CurMode = rt.Free
